@@ -224,18 +224,18 @@ func (t *InitType) String() string {
 }
 
 func (t *InitType) Parameters() []px.Value {
-	t.assertInitialized()
 	if t.initArgs.Len() == 0 {
 		if t.typ == nil {
 			return px.EmptyValues
 		}
 		return []px.Value{t.typ}
 	}
-	ps := []px.Value{undef, t.initArgs}
+	ps := make([]px.Value, 1, 1+t.initArgs.Len())
+	ps[0] = undef
 	if t.typ != nil {
-		ps[1] = t.typ
+		ps[0] = t.typ
 	}
-	return ps
+	return t.initArgs.AppendTo(ps)
 }
 
 func (t *InitType) ToString(b io.Writer, s px.FormatContext, g px.RDetect) {
